@@ -95,6 +95,11 @@ class Ctx(object):
         except (Violation, SkipCase, env.HarnessError):
             raise
         except Exception as e:
+            from .pyxshim import shim_gap
+            if shim_gap(e):
+                raise env.HarnessError("the transliterated .pyx code uses an undefined name "
+                                       "(%s): a construct outside the shim's Cython subset, or "
+                                       "a file Cython would not compile" % e)
             tb = traceback.extract_tb(sys.exc_info()[2])
             where = ""
             for fr in reversed(tb):
